@@ -158,7 +158,14 @@ class ShardedIterable(types.Recoverable, Iterable[_T]):
       raise ValueError(f'num_shards must be positive, got {self._shard_state=}')
 
   def shard(self, shard_index: int, num_shards: int) -> Self:
-    return dc.replace(self, _shard_state=ShardConfig(shard_index, num_shards))
+    # A round-robin shard of this (possibly already round-robin sharded) data.
+    parent = self._shard_state
+    shard_state = dc.replace(
+        parent,
+        shard_index=parent.shard_index + parent.num_shards * shard_index,
+        num_shards=parent.num_shards * num_shards,
+    )
+    return dc.replace(self, _shard_state=shard_state)
 
   @property
   def state(self) -> ShardConfig:
